@@ -303,7 +303,7 @@ func (i *InsertStatement) Format(opts FormatOptions) string {
 	if i.Query != nil {
 		sb.WriteString(f.clauseSep())
 		if fq, ok := i.Query.(Formatter); ok {
-			sb.WriteString(fq.Format(opts))
+			sb.WriteString(fq.Format(nestedOpts(opts)))
 		} else {
 			sb.WriteString(stmtSQL(i.Query))
 		}
@@ -544,7 +544,7 @@ func (s *SetOperation) Format(opts FormatOptions) string {
 
 	if s.Left != nil {
 		if ls, ok := s.Left.(Formatter); ok {
-			sb.WriteString(ls.Format(opts))
+			sb.WriteString(ls.Format(nestedOpts(opts)))
 		} else {
 			sb.WriteString(stmtSQL(s.Left))
 		}
@@ -558,7 +558,7 @@ func (s *SetOperation) Format(opts FormatOptions) string {
 	sb.WriteString(f.clauseSep())
 	if s.Right != nil {
 		if rs, ok := s.Right.(Formatter); ok {
-			sb.WriteString(rs.Format(opts))
+			sb.WriteString(rs.Format(nestedOpts(opts)))
 		} else {
 			sb.WriteString(stmtSQL(s.Right))
 		}
@@ -709,7 +709,7 @@ func (c *CreateViewStatement) Format(opts FormatOptions) string {
 	sb.WriteString(f.kw("AS"))
 	sb.WriteString(f.clauseSep())
 	if qs, ok := c.Query.(Formatter); ok {
-		sb.WriteString(qs.Format(opts))
+		sb.WriteString(qs.Format(nestedOpts(opts)))
 	} else {
 		sb.WriteString(stmtSQL(c.Query))
 	}
@@ -759,7 +759,7 @@ func (c *CreateMaterializedViewStatement) Format(opts FormatOptions) string {
 	sb.WriteString(f.kw("AS"))
 	sb.WriteString(f.clauseSep())
 	if qs, ok := c.Query.(Formatter); ok {
-		sb.WriteString(qs.Format(opts))
+		sb.WriteString(qs.Format(nestedOpts(opts)))
 	} else {
 		sb.WriteString(stmtSQL(c.Query))
 	}
@@ -887,13 +887,21 @@ func formatExpr(e Expression, opts FormatOptions) string {
 	return exprSQL(e)
 }
 
+// nestedOpts returns the options for a statement embedded in another one (CTE body,
+// set-operation arm, sub-query, INSERT ... SELECT, view body): the terminating
+// semicolon belongs to the outermost statement only.
+func nestedOpts(opts FormatOptions) FormatOptions {
+	opts.AddSemicolon = false
+	return opts
+}
+
 // formatStmt formats a statement using Format if available, otherwise SQL().
 func formatStmt(s Statement, opts FormatOptions) string {
 	if s == nil {
 		return ""
 	}
 	if fs, ok := s.(Formatter); ok {
-		return fs.Format(opts)
+		return fs.Format(nestedOpts(opts))
 	}
 	return stmtSQL(s)
 }
@@ -1141,7 +1149,7 @@ func formatWith(w *WithClause, f *formatter) string {
 		}
 		s += f.kw("AS") + " ("
 		if qs, ok := cte.Statement.(Formatter); ok {
-			s += qs.Format(f.opts)
+			s += qs.Format(nestedOpts(f.opts))
 		} else {
 			s += stmtSQL(cte.Statement)
 		}
